@@ -45,6 +45,26 @@ def top_split(s, sep='|'):
 INT_TY = {'i8': (1, True), 'u8': (1, False), 'i16': (2, True), 'u16': (2, False), 'i32': (4, True), 'u32': (4, False)}
 def b(x): return 'true' if x else 'false'
 
+def strict_steps(text, steps, gaps, where):
+    """[text] must be exactly `{` step_0 gap step_1 gap ... step_n `}`: every gap empty, except before the steps listed in
+    [gaps] (index -> regex the gap must match in full).  Anything else between two steps (a new early-out, an extra
+    statement) is reported: the arm is pinned, not merely searched."""
+    pos = 0
+    if not text.startswith('{'):
+        note('unrecognised shape of %s' % where); return
+    pos = 1
+    for i, st in enumerate(steps):
+        k = text.find(st, pos)
+        if k < 0:
+            note('unrecognised step (or order of steps) in %s: %s' % (where, st[:50])); return
+        gap = text[pos:k]
+        rule = gaps.get(i)
+        if (rule is None and gap != '') or (rule is not None and not re.fullmatch(rule, gap)):
+            note('unrecognised code between the steps of %s before `%s`: %s' % (where, st[:30], gap[:80])); return
+        pos = k + len(st)
+    if text[pos:] != '}':
+        note('unrecognised code after the last step of %s: %s' % (where, text[pos:][:80]))
+
 def main(repo, out):
     abi = rd(repo, 'src/llir/abi.rs'); astmod = rd(repo, 'src/ast/mod.rs'); raw = rd(repo, 'src/raw.rs')
     lower = rd(repo, 'src/llir/lower.rs'); early = rd(repo, 'src/llir/raise/early.rs'); io = rd(repo, 'src/io.rs')
@@ -249,11 +269,10 @@ def main(repo, out):
         'ifmatches!(size_spec,StringArgSize::Pascal{..}){args_blob.write_u32(encoded.len()as_).expect("Cursor<Vec>failed?!");}',
         'args_blob.write_all(&encoded.0).expect("Cursor<Vec>failed?!");',
     ]
-    pos = 0
-    for st in STEPS:
-        k = sn.find(st, pos)
-        if k < 0: note('unrecognised step (or order of steps) in the string arm of encode_args: ' + st[:50]); break
-        pos = k + len(st)
+    NUL_ARMS = r"(\|?StringArgSize::\w+\{[^{}]*\}(\|StringArgSize::\w+\{[^{}]*\})*=>(encoded\.0\.push\(b'\\0'\)|\{\}),?)+\}"
+    ERR_BODY = r"emitter\.emit\(error!\([^;]*\)\)\)\}"
+    if enc_str is not None:
+        strict_steps(sn, STEPS, {3: NUL_ARMS, 6: ERR_BODY}, 'the string arm of encode_args')
 
     # ---- decode_args_with_abi
     db = fn_body(early, 'decode_args_with_abi'); dbn = nows(db)
@@ -323,11 +342,9 @@ def main(repo, out):
         'encoded.trim_first_nul(emitter,warn_on_trimmed_data);',
         'letstring=encoded.decode(DEFAULT_ENCODING).map_err(|e|emitter.emit(e))?;ScalarValue::String(string)',
     ]
-    pos = 0
-    for st in DSTEPS:
-        k = (dec_str or '').find(st, pos)
-        if k < 0: note('unrecognised step (or order of steps) in the string arm of decode_args_with_abi: ' + st[:50]); break
-        pos = k + len(st)
+    if dec_str is not None:
+        strict_steps(dec_str, DSTEPS, {}, 'the string arm of decode_args_with_abi')
+    else: note('not found: String arm in decode_args_with_abi')
     # raise_raw_ins_args: padding check and removal
     rb_ = nows(fn_body(early, 'raise_raw_ins_args'))
     for what, txt in (('arg count check', 'ifargs.len()!=encodings.len(){returnErr('),
